@@ -66,8 +66,8 @@ def _rt(sid) -> bool:
     back = Sid(path=ps, config=c)
     if back != sid or back.type != sid.type or back.fields != sid.fields:
         return fail("path-roundtrip")
-    if list(back.fields.items()) != list(sid.fields.items()) or back.keytype != sid.keytype or back.parent != sid.parent:
-        return fail("path-roundtrip-changes-field-order")      # same uri, but it navigates differently (C03)
+    if list(back.fields) != list(sid.fields):
+        return fail("path-roundtrip-changes-field-order")      # same uri, but keytype / parent / get_as follow the field order (C03)
     other = sid.path(OTHER[c])
     if other is None:
         return fail("other-config-no-path")
